@@ -73,6 +73,10 @@ func verif_harness_C20_observe() {
 		Latency:  time.Duration(verif_nondet_i64("latency")),
 		Error:    verif_nondet_string("error", verif_choose("errlen", 2)),
 	}
+	if verif_nondet_bool("long_error_message") {
+		// a realistic transport error text, far longer than any label budget
+		res.Error = "Get \"http://target.example:8080/some/long/path?with=a&long=query\": dial tcp 203.0.113.17:8080: connect: connection refused (attempt 3 of 3, gave up after 30.000001s waiting for a free connection slot)"
+	}
 	pm.Observe(res)
 
 	if !verif_is_symbolic_run() {
